@@ -59,6 +59,38 @@ theorem C16_expiration_requeue (i : ExpIn) (d : Int) (hm : i.managed = true) (hd
   unfold expiration
   simp [hm, hd, he, hlt]
 
+/-- **C16_expiration_frame** — nothing but the documented trigger decides: whatever else the NodeClaim and its
+    surroundings carry (`spec.terminationGracePeriod`, the NodePool's own expireAfter / terminationGracePeriod,
+    condition transition times, the termination-timestamp annotation, the Node, its pods, do-not-disrupt, …)
+    leaves the whole outcome (Delete, requeue delay, error) unchanged. -/
+theorem C16_expiration_frame (i : ExpIn) (f : ExpFrame) :
+    expiration { i with frame := f } = expiration i := by
+  unfold expiration
+  rfl
+
+/-- two NodeClaims that agree on the trigger (and on the Delete outcome) are treated alike, whatever their frames -/
+theorem C16_expiration_frame_ext (i j : ExpIn) (hm : i.managed = j.managed) (hd : i.deleting = j.deleting)
+    (he : i.expireAfter = j.expireAfter) (hc : i.created = j.created) (hn : i.now = j.now)
+    (hf : i.deleteFault = j.deleteFault) :
+    expiration i = expiration j := by
+  unfold expiration
+  rw [hm, hd, he, hc, hn, hf]
+
+/-- **C16_expiration_grace_period_window** — the terminationGracePeriod does not pull the Delete forward: a
+    NodeClaim with terminationGracePeriod `g` (any `g`, also `g ≥ expireAfter`) that is reconciled inside
+    `[creation + expireAfter − g, creation + expireAfter)` is kept, and requeued for creation + expireAfter —
+    not for an earlier instant. (The same holds for every other duration / instant of the frame: it is the
+    instance of `C16_expiration_requeue` the frame theorem gives.) -/
+theorem C16_expiration_grace_period_window (i : ExpIn) (d g : Int) (hm : i.managed = true) (hd : i.deleting = false)
+    (he : i.expireAfter = some d) (_hg : i.frame.terminationGracePeriod = some g)
+    (_hwin : i.created + d - g ≤ i.now) (hlt : i.now < i.created + d) :
+    (expiration i).deletes = 0 ∧ (expiration i).requeue = i.created + d - i.now ∧
+      expirationMayDelete i.expireAfter i.created i.now = false := by
+  refine ⟨(C16_expiration_requeue i d hm hd he hlt).2, (C16_expiration_requeue i d hm hd he hlt).1, ?_⟩
+  unfold expirationMayDelete
+  simp [he]
+  omega
+
 /-! ## Garbage collection
 
 Full statement (what the property demands):
@@ -456,6 +488,11 @@ theorem C16_repair_no_cascade (ps : List Policy) (p : String) (st : List SNode) 
 example : (expiration { managed := true, deleting := false, expireAfter := some 3600, created := 10, now := 3610, deleteFault := .none }).deletes = 1 := by decide
 example : (expiration { managed := true, deleting := false, expireAfter := some 3600, created := 10, now := 3609, deleteFault := .none }) = { deletes := 0, requeue := 1, err := false } := by decide
 example : (expiration { managed := true, deleting := false, expireAfter := none, created := 10, now := 99999999, deleteFault := .none }).deletes = 0 := by decide
+-- expireAfter = 1h, terminationGracePeriod = 10m, clock at creation + 55m (inside the grace-period window): kept,
+-- requeued for the remaining 5m; terminationGracePeriod = 2h > expireAfter, one minute after creation: kept
+example : (expiration { managed := true, deleting := false, expireAfter := some 3600, created := 10, now := 3310, deleteFault := .none, frame := { terminationGracePeriod := some 600, durations := [("nodepool.expireAfter", 1800)], instants := [("Drifted", 2000)] } }) = { deletes := 0, requeue := 300, err := false } := by decide
+example : (expiration { managed := true, deleting := false, expireAfter := some 3600, created := 10, now := 70, deleteFault := .none, frame := { terminationGracePeriod := some 7200 } }) = { deletes := 0, requeue := 3540, err := false } := by decide
+example : (expiration { managed := true, deleting := false, expireAfter := some 3600, created := 10, now := 3610, deleteFault := .none, frame := { terminationGracePeriod := some 7200 } }).deletes = 1 := by decide
 
 def liveWitness (now : Int) : LiveIn :=
   { managed := true, deleting := false, launched := .unknown, launchedAt := 0, registered := .unknown, registeredAt := 0,
